@@ -87,7 +87,7 @@ def run(rep):
         if method == 'DualAverage': rep.sample({'query': tag, 'reference switch rule': str(z3.simplify(want_switch))[:500]})
     diag_contract(rep, mir, L)
     from ..driver import parts
-    parts(rep, [lambda: lowrank_contract(rep, mir, L)])
+    parts(rep, [lambda: lowrank_contract(rep, mir, L), lambda: validate_schedule(rep, mir, L, SCHEDULES[:2] if rep.tier == 'quick' else SCHEDULES)])
 
 def _b(v): return z3.BoolVal(v) if isinstance(v, bool) else v
 
@@ -200,3 +200,66 @@ def lowrank_contract(rep, mir, L):
     rep.paths += npaths; rep.absorb_vm(vm)
     if bad: rep.violated('C09 LowRankMassMatrixStrategy satisfies the estimator contract', 'lowrank.contract', 'low-rank strategy: %s' % (bad[0],), model={'problems': [str(x)[:300] for x in bad[:8]]})
     else: rep.holds('C09 LowRankMassMatrixStrategy (window of 0..4 draws, every split): update_estimators appends (draw, gradient) iff the draw is good, switch drops exactly the draws before the previous switch and starts an empty background, counts are exact, adapt needs >= 3 draws and feeds exactly the kept window to the estimation (%d paths)' % npaths)
+
+
+SCHEDULES = [  # fractions are binary fractions so that exact reals and f64 agree in GlobalStrategy::new
+    {'num_tune': 40, 'early_window': 0.25, 'step_size_window': 0.125, 'switch_freq': 8, 'early_switch_freq': 4, 'update_freq': 1, 'growth': 1.5, 'seed': 7},
+    {'num_tune': 64, 'early_window': 0.125, 'step_size_window': 0.25, 'switch_freq': 6, 'early_switch_freq': 3, 'update_freq': 4, 'growth': 2.0, 'seed': 11},
+    {'num_tune': 50, 'early_window': 0.5, 'step_size_window': 0.0, 'switch_freq': 10, 'early_switch_freq': 5, 'update_freq': 3, 'growth': 1.0, 'seed': 3},
+    {'num_tune': 5, 'early_window': 0.25, 'step_size_window': 0.125, 'switch_freq': 80, 'early_switch_freq': 10, 'update_freq': 1, 'growth': 1.5, 'seed': 5},
+    {'num_tune': 120, 'early_window': 0.25, 'step_size_window': 0.125, 'switch_freq': 16, 'early_switch_freq': 4, 'update_freq': 2, 'growth': 1.25, 'seed': 13},
+]
+
+def validate_schedule(rep, mir, L, configs):
+    """translator / environment validation against the real build: a DiagNutsSettings chain is run natively (replay family `schedule`) and, draw
+    by draw, the MIR of GlobalStrategy::adapt is executed with the integer schedule state pinned to the simulated history (step-size values stay
+    symbolic: they must not influence the schedule).  Compared per draw: the tuning flag and whether the transformation changed (native:
+    transformation_update_id present; model: A::adapt was called and >= 3 samples were in the estimator)."""
+    from .. import native
+    t0 = time.time(); nd = 0; mism = []
+    for cfg in configs:
+        nat = native.run('schedule', cfg, timeout=120)
+        if not nat or not nat.get('confirmed'): rep.unknown('C09.V native schedule trace could not be produced for %s' % cfg, str(nat)[:200]); return
+        q = AdaptQuery(mir, L, 'DualAverage', False); I = z3.Int; n = cfg['num_tune']
+        # state after GlobalStrategy::new + init, from the code's own formulas executed in new() (checked symbolically by C06.e); here as numbers
+        import math as _m
+        st = {'early_end': int(cfg['early_window'] * n), 'final_window': n - min(n, int(cfg['step_size_window'] * n)), 'tuning': True, 'has_initial': True, 'last_update': 0, 'window': cfg['switch_freq'], 'fg_count': 1, 'bg_count': 1}
+        from fractions import Fraction
+        g = Fraction(cfg['growth'])
+        for d in range(len(nat['tuning'])):
+            good = (abs(nat['index_in_trajectory'][d]) > 4) if nat['diverging'][d] else (nat['index_in_trajectory'][d] != 0)
+            pins = [I('draw') == d, I('num_tune') == n, I('early_end') == st['early_end'], I('final_window') == st['final_window'], I('last_update') == st['last_update'], I('window') == st['window'],
+                    I('switch_freq') == cfg['switch_freq'], I('early_switch_freq') == cfg['early_switch_freq'], I('update_freq') == cfg['update_freq'], I('fg_count') == st['fg_count'], I('bg_count') == st['bg_count'],
+                    z3.Bool('tuning') == st['tuning'], z3.Bool('has_initial') == st['has_initial'], z3.Bool('is_good') == good, q.A.fresh('growth').v == z3.RealVal(str(g))]
+            outs = q.run(extra_pre=pins); rep.paths += len(outs); chosen = []
+            for (m2, k, v) in outs:
+                if k != 'ret' or v.name != 'Ok': continue
+                post = q.post(m2); sol = z3.Solver(); sol.add(*m2.pc); sol.add(*q.A.lemmas)
+                if sol.check() != z3.sat: continue
+                md = sol.model(); ev = post['events']
+                val = lambda t: md.eval(t, model_completion=True)
+                fg = val(post['mm']['fg']).as_long(); bg = val(post['mm']['bg']).as_long()
+                ad = [e for e in ev if e[0] == 'mm_adapt']
+                if ad and ad[0][1] != (fg >= 3): continue          # DiagAdaptStrategy::adapt reports a change iff it holds >= 3 samples (C08 / source)
+                if any(e[0] == 'step_size_init' and not e[1] for e in ev): continue
+                chosen.append((post, md, fg, bg, bool(ad) and ad[0][1]))
+            if len(chosen) != 1:
+                mism.append({'config': cfg, 'draw': d, 'problem': 'model has %d consistent paths for the pinned state (expected 1)' % len(chosen)}); break
+            post, md, fg, bg, changed = chosen[0]; val = lambda t: md.eval(t, model_completion=True)
+            tun = val(post['tuning']) if z3.is_expr(post['tuning']) else post['tuning']
+            tun = bool(tun) if isinstance(tun, bool) else z3.is_true(tun)
+            nat_changed = nat['update_id'][d] is not None and d > 0
+            if d == 0 and nat['update_id'][0] is None: mism.append({'config': cfg, 'draw': 0, 'problem': 'the initial transformation is not reported on the first draw'})
+            if tun != nat['tuning'][d] or changed != nat_changed:
+                mism.append({'config': cfg, 'draw': d, 'model': {'tuning': tun, 'transformation_changed': changed, 'events': [e[0] for e in post['events']]}, 'native': {'tuning': nat['tuning'][d], 'update_id': nat['update_id'][d]}}); break
+            def iv(t): return t if isinstance(t, int) else val(t).as_long()
+            def bv(t): return t if isinstance(t, bool) else z3.is_true(val(t))
+            st.update({'tuning': bv(post['tuning']), 'has_initial': bv(post['has_initial']), 'last_update': iv(post['last_update']), 'window': iv(post['window']), 'fg_count': fg, 'bg_count': bg})
+            nd += 1
+        rep.absorb_vm(q.vm)
+    rep.validated += nd
+    if mism:
+        rep.validation_mismatch += mism; rep.errors.append('translator validation: model and native schedule disagree: %s' % str(mism[0])[:400])
+    else:
+        rep.notes.append('C09.V schedule validation: %d draws of %d native chains (tuning flag and transformation-change draw by draw) agree with the MIR execution of GlobalStrategy::adapt (%.1fs)' % (nd, len(configs), time.time() - t0))
+    rep.cover('C09.V native schedule traces compared draw by draw', nd > 0)
